@@ -109,7 +109,9 @@ def scenario_config(start: datetime, stop: datetime, dt: int, engines: list, *, 
         "estimation": {"sequential_filter": sf},
         "engines": engines,
         "propagation": prop,
-        "noise": {"random_seed": 12345, **(noise or {})},
+        # process noise well above the default 3e-14: with the default, short steps and precise radars the
+        # UKF covariance loses positive definiteness within a few steps (LinAlgError), which is outside C01-C20
+        "noise": {"random_seed": 12345, "filter_noise_magnitude": 1e-8, **(noise or {})},
         "events": events or [],
     }
     if estimation_extra:
@@ -210,14 +212,38 @@ def raw_sql(sql: str, params=()):
         cur.close()
 
 
-@contextmanager
-def keyed_noise(enabled=True, zero=False):
-    """Replace the simulator's measurement-noise draw (NumPy global RNG) by a pure function of
-    (sensor, target, epoch) so results do not depend on execution order.  Harness-side patch."""
-    if not enabled:
-        yield
-        return
+_noise_state = {"installed": False, "scale": 1.0, "salt": 0, "orig": None}
+
+
+def install_keyed_noise(scale: float = 1.0, salt: int = 0):
+    """Replace the simulator's measurement-noise draw (NumPy *global* RNG, i.e. dependent on execution
+    order and process) by a pure function of (sensor state, target state, epoch, salt): the same
+    N(0, R) distribution, but results become a function of the case only.  ``scale=0`` switches noise off.
+    Harness-side patch of ``Measurement.calculateMeasurement``; the noise-free part is the original code."""
+    import hashlib
+
     from resonaate.physics import measurements as meas
 
-    orig = meas.Measurement.calculateNoisyMeasurement if hasattr(meas.Measurement, "calculateNoisyMeasurement") else None
-    yield orig
+    _noise_state["scale"] = float(scale)
+    _noise_state["salt"] = int(salt)
+    if _noise_state["installed"]:
+        return
+    orig = meas.Measurement.calculateMeasurement
+    _noise_state["orig"] = orig
+
+    def calculateMeasurement(self, sen_eci_state, tgt_eci_state, utc_date, noisy=False):
+        clean = orig(self, sen_eci_state, tgt_eci_state, utc_date, noisy=False)
+        if not noisy or _noise_state["scale"] == 0.0:
+            return clean
+        h = hashlib.sha256()
+        h.update(np.ascontiguousarray(sen_eci_state, dtype=float).tobytes())
+        h.update(np.ascontiguousarray(tgt_eci_state, dtype=float).tobytes())
+        h.update(utc_date.isoformat().encode())
+        h.update(str(_noise_state["salt"]).encode())
+        rng = np.random.default_rng(int.from_bytes(h.digest()[:8], "big"))
+        z = rng.standard_normal(self._r_matrix.shape[0])
+        noise = _noise_state["scale"] * (self._sqrt_noise_covar @ z)
+        return {k: v + n for (k, v), n in zip(clean.items(), noise)}
+
+    meas.Measurement.calculateMeasurement = calculateMeasurement
+    _noise_state["installed"] = True
